@@ -50,6 +50,19 @@ class StateStub:
         k, a, b = self.cur
         return sx.SymReal(UF[name](sx.SymReal.lift(k), sx.SymReal.lift(a), sx.SymReal.lift(b)))
 
+    def T(self):
+        # the state's own temperature: what the last QT update set; unspecified (any real) before that and after a PQ update
+        self._may_fail('T')
+        if self.cur is not None and self.cur[0] == QT:
+            return sx.SymReal(sx.SymReal.lift(self.cur[2]))
+        return sx.cur().fresh('state_T')
+
+    def Q(self):
+        self._may_fail('Q')
+        if self.cur is not None:
+            return sx.SymReal(sx.SymReal.lift(self.cur[1] if self.cur[0] == QT else self.cur[2]))
+        return sx.cur().fresh('state_Q')
+
     def p(self):
         return self._get('p')
 
@@ -261,9 +274,15 @@ def sequence_block(block):
             ads = A.Adsorbate('x', backend_name='X')
             T1, T2 = eng.real('T1', positive=True), eng.real('T2', positive=True)
             getattr(ads, g1)(T1)
-            r2 = getattr(ads, g2)(T2)
-            eng.prove(f"{base}/history.independent_of_previous_call/after:{g1}", sx.eq(r2, spec[g2][1](T2)),
-                      extra={'replay': {'kind': 'getter.sequence', 'g1': g1, 'g2': g2}})
+            x_ = {'replay': {'kind': 'getter.sequence', 'g1': g1, 'g2': g2}}
+            try:
+                r2 = getattr(ads, g2)(T2)
+            except (sx.Unsupported, sx._Infeasible):
+                raise
+            except Exception as exc:
+                eng.prove(f"{base}/history.independent_of_previous_call/after:{g1}", False, extra=dict(x_, observed=f"{type(exc).__name__}"))
+                return
+            eng.prove(f"{base}/history.independent_of_previous_call/after:{g1}", sx.eq(r2, spec[g2][1](T2)), extra=x_)
             eng.prove(f"{base}/history.one_state_per_backend/after:{g1}", len(cp.created) == 1)
 
         for path in eng.explore(run):
